@@ -569,6 +569,26 @@ func runC02(c *h.Ctx) {
 				cs.Cover("forced_output_growth") // output longer than the guarded capacity: the native code had to hand back for more room
 			}
 		}
+		// results of Do of every size (below and above the pooled buffer's default size) belong to the caller: they are
+		// held while other conversions run
+		out1, err1 := cv.Do(context.Background(), growDesc, []byte(doc))
+		if err1 != nil || !bytes.Equal(out1, want) {
+			cs.Viol("j2t:buffer-growth:Do", "err", err1, "got-len", len(out1), "want-len", len(want))
+			return
+		}
+		other := RenderJSON(cs.R, tref.Struct(tref.Field{ID: 4, V: tref.Str(strings.Repeat("\u00e9", 3000+cs.R.Intn(3000)))}), root, JSpell{}, JOpts{})
+		for k := 0; k < 2; k++ {
+			cv2 := j2t.NewBinaryConv(conv.Options{})
+			cv2.Do(context.Background(), growDesc, []byte(other))
+		}
+		if !bytes.Equal(out1, want) {
+			cs.Viol("j2t:Do:result-changed-by-later-calls", "len", len(want))
+			return
+		}
+		cs.Cover("do_result_held_intact")
+		if len(want) > 4096 {
+			cs.Cover("do_result_held_intact_above_default_buffer")
+		}
 		cs.Cover("growth_docs")
 		cs.Distinct(fmt.Sprintf("g-%d-%d", n, len(v.Fs)))
 	})
